@@ -2,6 +2,7 @@ import PncProofs.UamivLemmas
 import PncModel.Camx.Slab
 import PncProofs.LanduseThms
 import PncProofs.CloudRainLemmas
+import PncProofs.BoundaryLemmas
 
 /-!
 # C09 — binary files conform to the published layout: property theorems (uamiv family)
@@ -181,6 +182,26 @@ theorem wind_read (cells nz h : Nat) (steps : List Wind.WStep) (w : Wind.WFw cel
 encoded description, grid and steps, for 3- and 5-variable files that are not ambiguous in size -/
 theorem cloud_rain_read (nv : Nat) (f : CloudRain.CFile) (w : CloudRain.WFc nv f) :
     CloudRain.read (CloudRain.encode f) = some f := CloudRain.read_encode nv f w
+
+/-- **C09 (lateral boundary: the reader on reference files).** the memory-mapped boundary reader presents exactly the
+encoded records: headers, edge definitions and, per step, the time record and the four edge records of every species -/
+theorem boundary_read (nspec nx ny nz : Nat) (f : Boundary.BFile) (w : Boundary.WFb nspec nx ny nz f) :
+    Boundary.read (Boundary.encode f) = some f := Boundary.read_encode nspec nx ny nz f w
+
+/-- a one-species boundary file on a 2 x 1 grid with one layer and two time steps -/
+def exBoundary : Boundary.BFile where
+  headers := [List.replicate 71 0 ++ [1, 0, 0, 0, 0], [0, 0, 0, 0, 0, 0, 0, 2, 1, 1, 0, 0, 0, 0, 0], [1, 1, 2, 1],
+    List.replicate 10 65]
+  defs := [List.replicate 7 0, List.replicate 7 0, List.replicate 11 0, List.replicate 11 0]
+  steps := [⟨[1, 2, 3, 4], [List.replicate 13 5, List.replicate 13 6, List.replicate 14 7, List.replicate 14 8]⟩,
+    ⟨[5, 6, 7, 8], [List.replicate 13 9, List.replicate 13 10, List.replicate 14 11, List.replicate 14 12]⟩]
+
+/-- non-vacuity: the example is well-formed and is read back -/
+example : Boundary.WFb 1 2 1 1 exBoundary ∧ Boundary.read (Boundary.encode exBoundary) = some exBoundary := by
+  have w : Boundary.WFb 1 2 1 1 exBoundary :=
+    ⟨⟨_, _, _, _, rfl, by decide, by decide, by decide, by decide, by decide, by decide, by decide, by decide, by decide⟩,
+      by decide, by decide, by decide, by decide⟩
+  exact ⟨w, boundary_read 1 2 1 1 exBoundary w⟩
 
 /-- non-vacuity: a two-step wind file with a three-word header, and a one-step 3-variable cloud/rain file -/
 example : Wind.WFw 2 1 3 [⟨1, 19200, some 0, [[1, 2], [3, 4]]⟩, ⟨2, 19200, some 0, [[5, 6], [7, 8]]⟩] ∧
